@@ -144,3 +144,7 @@ MUTANTS += [
  {"id": "regress-field-counter-i32", "kind": "break", "edits": [("src/distinfo.rs", "            let mut field: usize = 0;", "            let mut field = 0;")], "expect": ["PANIC@distinfo::Line::from_bytes", "Overflow(Add)"]},
  {"id": "probe-parsed-size-plus-one", "kind": "break", "edits": [("src/distinfo.rs", "                    Ok(n) => return Line::Size(path, n),", "                    Ok(n) => return Line::Size(path, n + 1),")], "expect": ["PANIC@distinfo::Line::from_bytes", "Overflow(Add)"]},
 ]
+MUTANTS += [
+ {"id": "probe-vec-insert-at-computed-index", "kind": "break", "edits": [("src/plist.rs", "                    lines.push((start, idx));", "                    lines.insert(lines.len() + start, (start, idx));")], "expect": ["PANIC@plist::Plist::from_bytes", "insert"]},
+ {"id": "probe-to-digit-radix-from-input", "kind": "break", "edits": [("src/pkgname.rs", "            Some((_, v)) => v.parse::<i64>().ok().or(Some(0)),", "            Some((_, v)) => v.chars().next().and_then(|c| c.to_digit(v.len() as u32)).map(i64::from).or_else(|| v.parse::<i64>().ok()).or(Some(0)),")], "expect": ["PANIC@pkgname::PkgName::new"]},
+]
